@@ -6,15 +6,14 @@ RULE = ("build cases: an annotated sequence handed to the real gff.Build, then g
         "RegionEnd in {len, 0, 70, len-1, a smaller multiple of 70}, then random records (length log-uniform to 5000, 0..30 features, "
         "1..6 attributes, features at the extreme coordinates, empty and defaulted fields, punctuation in field text); "
         "layout cases: the same content written by the independent Lean writer (arbitrary line widths incl. blank lines, ## directives, "
-        "blank lines between features, ### or not, final newline or not) and parsed by the real gff.Parse / gff.Read. "
+        "# comment lines, blank lines between features, ### or not, final newline or not) and parsed by the real gff.Parse / gff.Read. "
         "non-trivial = at least one feature or sequence length >= 70; distinct by case text")
 EXHAUSTIVE = {"quick": False, "thorough": False}
 TRUSTED_BASE = ["Spec/GffLayout.lean: the independent GFF3 writer, `denote` and `bases` (1-based inclusive enumeration) typed by hand",
                 "Model/LineText.lean: strings.Split/HasPrefix/TrimLeft, strconv.Itoa/Atoi, sort.Strings modelled on ASCII",
                 "ioutil.ReadFile/WriteFile (gff.Read/Write) — exercised by the correspondence check only"]
 ASSUMPTIONS = ["inputs are ASCII (one byte = one rune)", "coordinates lie in the int64 range and Start+1 does not overflow"]
-PARTIAL = ["parse_layout is proved for layouts without '#' comment lines (parse_layout_partial): on a GFF3 '#' comment line the real "
-           "gff.Parse panics (known finding C14-hash-comment, kernel-checked witness comment_witness)"]
+PARTIAL = []
 
 TEXT = "abcdefghijklmnopqrstuvwxyzABCDEFGHIJKLMNOPQRSTUVWXYZ0123456789 .,:()[]_-+*/%#>|'\"~!?"
 IDCH = "abcdefghijklmnopqrstuvwxyzABCDEFGHIJKLMNOPQRSTUVWXYZ0123456789.:^*$@!+_?-|"
@@ -100,7 +99,9 @@ def widths_text(r, n):
     return ",".join(items)
 
 
-def layout_case(r, n, nfeat=None, comments=0):
+def layout_case(r, n, nfeat=None, comments=None):
+    if comments is None:
+        comments = r.choice([0, 0, 1, 2])
     seq = randword(r, r.choice(SEQA), n)
     region = ident(r)
     nfeat = r.randint(0, 30) if nfeat is None else nfeat
@@ -148,15 +149,13 @@ def cases(seed, tier):
         yield layout_case(r, n, nfeat=r.randint(0, 2))
     for _ in range(nlay):
         yield layout_case(r, loglen(r, 1, 5000))
-    # the recorded finding: a GFF3 '#' comment line
-    for _ in range(3):
-        yield layout_case(r, r.randint(1, 200), nfeat=r.randint(0, 3), comments=r.randint(1, 2))
     # out-of-domain probes (not judged; model drift is reported only as information)
     base = ["build", "chr1", "3", "1", "10", "", "", "", "ACGTACGTAC"]
     yield base + ["1", "chr1", "poly", "gene", "0", "4", ".", "+", ".", "0"]                       # no attributes
     yield base + ["1", "chr1", "poly", "gene", "0", "4", ".", "+", ".", "1", "ID", "a=b"]          # '=' in a value
     yield base + ["1", "chr1", "poly", "gene", "0", "4", ".", "+", ".", "1", "ID", "a;b"]          # ';' in a value
     yield base + ["1", "##x", "poly", "gene", "0", "4", ".", "+", ".", "1", "ID", "a"]             # seqid looks like a directive
+    yield base + ["1", "#x", "poly", "gene", "0", "4", ".", "+", ".", "1", "ID", "a"]              # seqid looks like a comment
     yield base + ["1", "chr1", "po\tly", "gene", "0", "4", ".", "+", ".", "1", "ID", "a"]          # tab in a column
     yield ["build", "chr 1", "3", "1", "10", "", "", "", "ACGTACGTAC", "0"]                        # blank in the region name
     yield ["build", "chr1", "3", "1", "10", "", "", "", ">CGT#CGTAC", "0"]                         # '>' in the sequence
@@ -174,8 +173,8 @@ LEVEL_TEXT = ("parse_build: for every record satisfying the decidable predicate 
               "seqid, source, type, score, strand, phase, coordinates, attributes as a permutation). The FASTA part is proved through a "
               "newline-insensitivity lemma, so all residues modulo 70 and the RegionEnd exception are covered uniformly. coords_build / "
               "coords_layout: GetSequence of a parsed feature is `bases seq first last` (1-based inclusive enumeration). "
-              "parse_layout_partial: the parse of any text produced by the independent writer (arbitrary widths, directives, blank "
-              "lines) is what the document denotes; '#' comment lines are excluded (known finding).")
+              "parse_layout: the parse of any text produced by the independent writer (arbitrary widths, ## directives, # comment "
+              "lines, blank lines, with or without ### and the final newline) is what the document denotes.")
 LEVEL_NOTE = ("Trusted: Lean kernel; the hand-written model's faithfulness is sampled by the correspondence check (Build text compared "
               "byte for byte, Parse results field by field, GetSequence, file round trip); Go runtime behaviour on non-ASCII input is "
               "outside the model.")
